@@ -20,6 +20,9 @@ type c06Case struct {
 	Entry   int    `json:"entry"`
 	Mode    string `json:"mode"`    // header | tcp
 	Forward string `json:"forward"` // value of the x-piko-forward header sent by the client: "" (absent), "true", "false"
+	// Conn: a Connection header sent by the client naming a header as
+	// hop-by-hop (the HTTP reverse proxy strips the headers named there)
+	Conn string `json:"connection_header,omitempty"`
 }
 
 func (c c06Case) place(i int) int {
@@ -73,8 +76,12 @@ func (w *c06World) run(c c06Case) (sig, msg string) {
 		perNode = append(perNode, n.Accepts.Load())
 	}
 	a := e4.Addressing{Mode: c.Mode, Endpoint: "e1"}
+	a.Extra = map[string]string{}
 	if c.Forward != "" {
-		a.Extra = map[string]string{"x-piko-forward": c.Forward}
+		a.Extra["x-piko-forward"] = c.Forward
+	}
+	if c.Conn != "" {
+		a.Extra["Connection"] = c.Conn
 	}
 	res := e4.Do(w.cl.Nodes[c.Entry].Addr, a)
 	hops := w.cl.TotalAccepts() - before
@@ -198,6 +205,9 @@ func init() {
 						for _, m := range modes {
 							for _, f := range []string{"", "true", "false"} {
 								cases = append(cases, c06Case{N: n, Beliefs: b, Place: p, Entry: e, Mode: m, Forward: f})
+								if m == "header" && n == 3 {
+									cases = append(cases, c06Case{N: n, Beliefs: b, Place: p, Entry: e, Mode: m, Forward: f, Conn: "x-piko-forward"})
+								}
 							}
 						}
 					}
@@ -256,7 +266,7 @@ func init() {
 		schedPass(run)
 		run.Set("evaluations", evals)
 		run.Set("distinct_nontrivial", nontrivial)
-		run.Set("rule", "cross product of all 2^6 belief matrices (who believes whom to serve E) x all 3^3 placements (per node: no upstream / healthy upstream / upstream that announced go-away) x entry node x {HTTP, TCP} x x-piko-forward header sent by the client {absent, true, false} on 3 real proxy servers (thorough: also 2 and 4 nodes); every case is distinct; non-trivial = the entry node has no healthy local upstream (the request must be forwarded once, or refused)")
+		run.Set("rule", "cross product of all 2^6 belief matrices (who believes whom to serve E) x all 3^3 placements (per node: no upstream / healthy upstream / upstream that announced go-away) x entry node x {HTTP, TCP} x x-piko-forward header sent by the client {absent, true, false} x {-, Connection: x-piko-forward (HTTP route)} on 3 real proxy servers (thorough: also 2 and 4 nodes); every case is distinct; non-trivial = the entry node has no healthy local upstream (the request must be forwarded once, or refused)")
 		run.Set("exhaustive", true)
 		run.Assume("goroutine scheduling inside net/http, gorilla/websocket and the proxies is free-running; the enumerated dimension is the configuration")
 		fmt.Printf("  C06: cases=%d non-trivial=%d\n", evals, nontrivial)
